@@ -57,8 +57,8 @@ P = {
  "C16": ("exploration", "exhaustive per-conjunct grids + rapid full-product sampling + YAML/JSON round trip + generated files through the real cmd/main.go gate + native fuzzing (thorough)",
          "accepted => every invariant (each invariant evaluated independently of the validator); YAML-decoded = JSON-decoded = source for every documented key, documents larger than the sniff buffer included. Exhaustive over the stated grids only.",
          "4 C16"),
- "C17": ("exploration", "rapid direct calls on the real AWS provider + argument oracle",
-         "IncreaseSize(d) for all boundary relations of (desired, max, d) and fleet sizes around the 20-batch limit: exactly one SetDesiredCapacity(current+d), or one all-or-nothing CreateFleet(d) whose instances are each attached exactly once in calls of <= 20 (the simulated EC2 counts capacity in units of the serving override's weight, so d units must be d instances); rejected deltas make no write.",
+ "C17": ("exploration", "rapid direct calls on the real AWS provider + argument oracle; history monitor on the absolute-set rule",
+         "IncreaseSize(d) for all boundary relations of (desired, max, d) and fleet sizes around the 20-batch limit: exactly one SetDesiredCapacity(current+d), or one all-or-nothing CreateFleet(d) whose instances are each attached exactly once in calls of <= 20 (the simulated EC2 counts capacity in units of the serving override's weight, so d units must be d instances); rejected deltas make no write. Along controller histories with provider rebuilds and external resizes every accepted SetDesiredCapacity equals the real desired capacity at that moment plus the delta asked for.",
          "4 C17"),
  "C18": ("fault_enumeration", "enumeration of every single failure point per fleet size + set algebra over recorded arguments",
          "For each fleet size every failure point (never ready, readiness API failing, k-th attach for every k, optionally with the j-th terminate failing, an answer listing fewer instances than asked for) is executed; attached and submitted-for-termination must partition the acquired instances, each terminate call carries <= 1000 ids, the failure is reported. Engine histories check that no lock is taken after a failed fleet scale-up.",
